@@ -2,15 +2,25 @@
 
 Tie T+D: the capacities of all lru_cache'd methods are generated from the code (`Gen.lruSizes`); the nested
 cached-call graph (exact key and receiver of every nested call) is traced from the real code by wrapping
-the cached attributes; random interleavings of queries / in-place modifiers / writers over 1-3 live meshes
+the cached attributes; random interleavings of queries / in-place modifiers / writers over 1-4 live meshes
 are executed on the real objects and on the cache model (`c19.run`): per query the numbers of cache hits
-and misses must be equal, and wherever the model says "computed from the current mesh" the real value must
-equal the value of the same query on a freshly built equal mesh.
-Oracle: value == fresh value for EVERY query; ids / coordinates / connectivity / user variables unchanged
-by every query and writer.  Known (open) findings are matched by signature."""
+and misses and the version stamp of the returned value must be equal, and wherever the model says "computed
+from the current mesh" the real value must equal the value of the same query on a freshly built equal mesh.
+Oracle: value == fresh value for EVERY query; ids / coordinates / connectivity / user variables of EVERY live
+object (the queried one, its siblings, the objects derived from it that share its arrays) unchanged by every query
+and writer, compared bit-exactly after every operation.
+
+A value that differs from the fresh one is attributed by PROVENANCE, not by "some modification happened before":
+every lru entry and every derived variable stored in a variable table carries the mesh versions / options /
+writer it was computed from (traced: lru hits and misses, reads and writes of the variable tables during the
+query).  Only a value whose provenance contains an older mesh version is `stale-after:<modifier>:<query>` (open
+finding F11); a value that read nothing stale must be fresh (`history-dependent:<query>` otherwise).  Lean:
+`C19_stale_needs_stale_entry`."""
 import contextlib
 import functools
+import hashlib
 import io
+import random
 
 import numpy as np
 import scipy.sparse as sp
@@ -22,24 +32,39 @@ PROP = 'C19'
 LEAN_MODULES = ['Femio.Props.C19']
 THEOREMS = ['access_good', 'C19_objects_dont_share', 'C19_user_data_untouched', 'C19_history_independent_partial',
             'C19_history_independent', 'C19_no_future_values', 'C19_stale_lru_counterexample', 'C19_stale_nested_counterexample',
-            'C19_eviction_refreshes', 'C19_lru_sizes_positive']
+            'C19_eviction_refreshes', 'C19_lru_sizes_positive', 'C19_stale_needs_stale_entry', 'C19_fresh_object_stays_fresh']
 PARTIAL = ['C19_history_independent_partial: the tree as it is satisfies history independence only for histories WITHOUT '
            'in-place modifiers; the full statement C19_history_independent is proved for the configuration in which modifiers '
-           'clear the caches, which the tree does not implement (open known findings stale-after-modify:*)',
-           'derived variables stored in elemental_data (volume / area / metric) are returned regardless of mode / abs options and '
-           'after make_elements_positive: oracle only (open known findings options-ignored:*, stale-after-modify:*)',
+           'clear the caches, which the tree does not implement (open known findings stale-after:* / stale-after-modify:*)',
+           'derived variables stored in elemental_data (volume / area / metric) are returned regardless of mode / abs options, '
+           'after in-place modifications and to every object sharing the variable table (to_polyhedron children): oracle only, '
+           'attributed by traced reads of the variable tables (open known findings options-ignored:*, stale-after:*, shared-stored:*)',
            'C19_user_data_untouched is a statement about the model (queries do not bump versions); on the implementation it is '
-           'checked by before/after snapshots']
-RULE = ('seeded histories (quick <= 14 ops, thorough <= 40) over 1-3 live tet / hex meshes: ~25 query spellings (graph matrices, '
-        'surface, normals, metrics, conversions; positional vs keyword spellings are different cache keys), in-place modifiers '
-        '(remove_useless_nodes, make_elements_positive, connectivity assignment) and writers (ucd, fistr); a case = one operation; '
-        'non-trivial = a query that hit a cache, or was made after an in-place modification, or on a second object')
+           'checked by bit-exact snapshots of every live object after every operation',
+           'C19_stale_needs_stale_entry covers the lru caches; the same argument for the stored derived variables is made by the '
+           'harness only (provenance of traced table reads)']
+RULE = ('seeded histories (quick <= 14 ops, thorough <= 40) over 1-4 live meshes of kind tet / hex / prism / mixed (hex+prism+pyr) / '
+        'tet2 / tri / quad shells / polyhedron, half of them translated far from the origin, with unreferenced nodes in the middle '
+        'of unsorted node tables; ~60 query spellings (graph matrices, surface, facets, normals, areas, edge lengths, angles, '
+        'jacobians, centroids, volumes in every mode, metrics, integrals, conversions, gradients, derived meshes; positional vs '
+        'keyword spellings are different cache keys), in-place modifiers (remove_useless_nodes, make_elements_positive, '
+        'connectivity / coordinate assignment, user-variable overwrite), writers (ucd, fistr) and derived live objects '
+        '(to_polyhedron / to_facets / to_surface / to_first_order results, which may share arrays and variable tables with the '
+        'parent); systematic streams: [q, modifier, q] for every query, ordered pairs of spellings of one query, [block A, modifier, '
+        'block B] covering EVERY ordered pair of queries per mesh family (quick: blocks of 16 + greedy completion, the number of '
+        'uncovered pairs is in the evidence; thorough: [A, modifier, block of 8] for every A and every modifier), [derive child, '
+        'query child, query parent]; every value that differs from the fresh one is attributed by traced provenance + a replay of '
+        'the same queries on an unmodified equal mesh; a case = one operation; non-trivial = a query that hit a cache, or was made '
+        'after an in-place modification, or on a second object')
 ASSUMPTIONS = ['functools.lru_cache: LRU eviction, insertion after the wrapped call returns, key = (self, args, kwargs in call spelling)',
-               'a freshly built equal mesh = FEMData constructed from copies of the current nodes, elements and user variables, '
-               'queried with all caches cleared']
+               'a freshly built equal mesh = FEMData constructed from copies of the current nodes, elements (and polyhedron faces) and '
+               'user variables, queried with all caches cleared',
+               'reads / writes of the variable tables are observed through FEMAttributes.__getitem__ / __setitem__ / update / '
+               'update_data (used only to ATTRIBUTE a deviation to a known finding, never to excuse an unread one)']
 
-_TRACE = {'log': [], 'depth': 0, 'on': False}
+_TRACE = {'log': [], 'depth': 0, 'on': False, 'stack': [], 'tab': [], 'upd': 0, 'seq': 0}
 _WRAPPED = {}
+_TABWRAP = {}
 
 
 def cached_methods():
@@ -82,12 +107,15 @@ def install_tracing():
                 if not _TRACE['on']:
                     return lru(self, *a, **k)
                 before = lru.cache_info()
-                entry = {'depth': _TRACE['depth'], 'meth': name, 'key': canon_key(self, a, k), 'recv': id(self), 'hit': None}
+                entry = {'depth': _TRACE['depth'], 'meth': name, 'key': canon_key(self, a, k), 'recv': id(self), 'hit': None,
+                         'tab': []}
                 _TRACE['log'].append(entry)
                 _TRACE['depth'] += 1
+                _TRACE['stack'].append(entry)
                 try:
                     return lru(self, *a, **k)
                 finally:
+                    _TRACE['stack'].pop()
                     _TRACE['depth'] -= 1
                     after = lru.cache_info()
                     entry['hit'] = after.hits > before.hits and after.misses == before.misses
@@ -97,6 +125,62 @@ def install_tracing():
             return traced
         _WRAPPED[name] = lru
         setattr(cls, name, make(lru, name))
+    install_table_tracing()
+
+
+def install_table_tracing():
+    """observe which variables of a variable table a query reads and writes (FEMAttributes accessors).  The event goes to
+    the innermost running lru-cached call, so that a cache entry inherits the provenance of what it was computed from."""
+    from femio.fem_attributes import FEMAttributes
+    if _TABWRAP:
+        return
+    og, os_, oud, oup = (FEMAttributes.__getitem__, FEMAttributes.__setitem__, FEMAttributes.update_data, FEMAttributes.update)
+    _TABWRAP.update(getitem=og, setitem=os_, update_data=oud, update=oup)
+
+    def emit(kind, tab, key):
+        _TRACE['seq'] += 1
+        sink = _TRACE['stack'][-1]['tab'] if _TRACE['stack'] else _TRACE['tab']
+        for k in ([key] if isinstance(key, str) else list(key)):
+            sink.append((kind, id(tab), tab._get_key(k), _TRACE['seq']))
+
+    def getitem(self, key):
+        if _TRACE['on'] and not _TRACE['upd']:
+            emit('r', self, key)
+        return og(self, key)
+
+    def setitem(self, key, value):
+        if _TRACE['on'] and not _TRACE['upd']:
+            emit('w', self, key)
+        return os_(self, key, value)
+
+    def update_data(self, ids, data_dict, **kw):
+        if not _TRACE['on']:
+            return oud(self, ids, data_dict, **kw)
+        _TRACE['upd'] += 1
+        try:
+            return oud(self, ids, data_dict, **kw)
+        finally:
+            _TRACE['upd'] -= 1
+            if not _TRACE['upd']:
+                emit('w', self, list(data_dict))
+
+    def update(self, dict_attributes):
+        if not _TRACE['on']:
+            return oup(self, dict_attributes)
+        _TRACE['upd'] += 1
+        try:
+            return oup(self, dict_attributes)
+        finally:
+            _TRACE['upd'] -= 1
+            if not _TRACE['upd']:
+                try:
+                    emit('w', self, list(dict_attributes.keys()))
+                except Exception:
+                    pass
+    FEMAttributes.__getitem__ = getitem
+    FEMAttributes.__setitem__ = setitem
+    FEMAttributes.update_data = update_data
+    FEMAttributes.update = update
 
 
 def clear_caches():
@@ -104,58 +188,135 @@ def clear_caches():
         lru.cache_clear()
 
 
+# ----------------------------------------------------------------------------------------------- canonical values
+def _h(*bs):
+    h = hashlib.blake2b(digest_size=12)
+    for b in bs:
+        h.update(b)
+    return h.hexdigest()
+
+
+def _num(a):
+    """bit-exact canonical bytes of a numeric array (every NaN is one token, ints independent of their width)"""
+    if a.dtype.kind == 'f':
+        a = np.ascontiguousarray(a, dtype=np.float64)
+        if a.size and np.isnan(a).any():
+            a = np.where(np.isnan(a), np.nan, a)
+        return 'f', a.tobytes()
+    return 'a', np.ascontiguousarray(a, dtype=np.int64).tobytes()
+
+
 def digest(v):
     if sp.issparse(v):
         c = v.tocoo()
         c.sum_duplicates()
         order = np.lexsort((c.col, c.row))
-        return ('sp', c.shape, c.row[order].tolist(), c.col[order].tolist(), [float(x).hex() for x in c.data[order].astype(float)])
+        return ('sp', c.shape, _h(_num(c.row[order])[1], _num(c.col[order])[1], _num(c.data[order].astype(float))[1]))
     if isinstance(v, (list, tuple)):
+        if v and all(isinstance(x, (int, float, np.integer, np.floating)) and not isinstance(x, bool) for x in v):
+            return ('seq', [('n', float(x).hex() if isinstance(x, (float, np.floating)) else int(x)) for x in v])
         return ('seq', [digest(x) for x in v])
     if isinstance(v, dict):
         return ('dict', sorted((str(k), digest(x)) for k, x in v.items()))
     if v is None:
         return ('none',)
     if hasattr(v, 'nodes') and hasattr(v, 'elements'):
-        return ('fem', digest(v.nodes.ids), digest(v.nodes.data), digest({t: (e.ids, e.data) for t, e in v.elements.items()}))
+        return ('fem', digest(v.nodes.ids), digest(v.nodes.data), connectivity_digest(v))
     a = np.asarray(v)
     if a.dtype == object:
         return ('obj', a.shape, [digest(x) for x in a.ravel()])
-    if a.dtype.kind == 'f':
-        return ('f', a.shape, ['nan' if x != x else float(x).hex() for x in a.ravel().tolist()])
+    if a.dtype.kind in 'fiub':
+        k, b = _num(a)
+        return (k, a.shape, _h(b))
     return ('a', a.shape, a.ravel().tolist())
 
 
-def user_snapshot(fd, user_vars):
+def connectivity_digest(fd):
+    d = {t: (e.ids, e.data) for t, e in fd.elements.items()}
+    if 'polyhedron' in d and 'face' in fd.elemental_data.data:
+        try:
+            d['face'] = list(fd.elemental_data.data['face']['polyhedron'].data)
+        except Exception:
+            d['face'] = 'unreadable'
+    return digest(d)
+
+
+USER = {'nodal': ['T'], 'elemental': ['E']}
+STRUCTURAL = {'NODE', 'face'}
+MESH_PARTS = ('node ids', 'coordinates', 'connectivity')
+
+
+def user_snapshot(fd):
+    nd, ed = fd.nodal_data.data, fd.elemental_data.data
     return {
-        'node ids': digest(fd.nodes.ids), 'coordinates': digest(fd.nodes.data),
-        'connectivity': digest({t: (e.ids, e.data) for t, e in fd.elements.items()}),
-        'user variables': digest({k: (fd.nodal_data[k].ids, fd.nodal_data[k].data) for k in user_vars['nodal'] if k in fd.nodal_data}
-                                 | {'E:' + k: digest(fd.elemental_data.get_attribute_data(k)) for k in user_vars['elemental']
-                                    if k in fd.elemental_data}),
-        'user variable names': sorted(k for k in user_vars['nodal'] if k in fd.nodal_data)
-        + sorted(k for k in user_vars['elemental'] if k in fd.elemental_data),
+        'node ids': digest(fd.nodes.ids), 'coordinates': digest(fd.nodes.data), 'connectivity': connectivity_digest(fd),
+        'user variables': digest({k: (nd[k].ids, nd[k].data) for k in USER['nodal'] if k in nd}
+                                 | {'E:' + k: digest(ed[k].data) for k in USER['elemental'] if k in ed}),
+        'user variable names': sorted(k for k in USER['nodal'] if k in nd) + sorted(k for k in USER['elemental'] if k in ed),
     }
 
 
-def clone_fresh(fd, user_vars):
-    """a freshly built equal mesh (copies of nodes, elements, user variables)"""
+def derived_state(fd):
+    """digests of the derived variables (everything the user did not store) of both variable tables of an object"""
+    out = {}
+    for tab, user in ((fd.nodal_data, USER['nodal']), (fd.elemental_data, USER['elemental'])):
+        for k, a in tab.data.items():
+            if k in user or k in STRUCTURAL:
+                continue
+            try:
+                out[(id(tab), k)] = digest(a.data)
+            except Exception:
+                out[(id(tab), k)] = ('undigestable', id(a))
+    return out
+
+
+def capture(fd):
+    """plain copies of everything a freshly built equal mesh is built from: nodes, elements (and polyhedron faces), user variables"""
+    nd, ed = fd.nodal_data.data, fd.elemental_data.data
+    cap = {'nid': np.array(fd.nodes.ids).copy(), 'xyz': np.array(fd.nodes.data).copy(),
+           'el': [(t, np.array(e.ids).copy(), np.array(e.data).copy()) for t, e in fd.elements.items()],
+           'nodal': {k: (np.array(nd[k].ids).copy(), np.array(nd[k].data).copy()) for k in USER['nodal'] if k in nd},
+           'elemental': {k: np.array(ed[k].data).copy() for k in USER['elemental'] if k in ed}}
+    if 'polyhedron' in fd.elements and 'face' in ed:
+        src = ed['face']['polyhedron']
+        cap['face'] = (np.array(src.ids).copy(), [[int(y) for y in x] for x in src.data])
+    return cap
+
+
+def build(cap):
+    """a freshly built mesh from a capture (every array copied again: two builds share nothing)"""
     from femio import FEMData, FEMAttribute, FEMElementalAttribute
     with contextlib.redirect_stdout(io.StringIO()):
-        nodes = FEMAttribute('NODE', ids=fd.nodes.ids.copy(), data=fd.nodes.data.copy(), silent=True)
-        el = FEMElementalAttribute('ELEMENT', {t: FEMAttribute(t, ids=e.ids.copy(), data=np.array(e.data).copy(), silent=True)
-                                               for t, e in fd.elements.items()})
+        nodes = FEMAttribute('NODE', ids=cap['nid'].copy(), data=cap['xyz'].copy(), silent=True)
+        el = FEMElementalAttribute('ELEMENT', {t: FEMAttribute(t, ids=i.copy(), data=d.copy(), silent=True) for t, i, d in cap['el']})
         new = FEMData(nodes=nodes, elements=el)
-        for k in user_vars['nodal']:
-            if k in fd.nodal_data:
-                new.nodal_data[k] = FEMAttribute(k, ids=fd.nodal_data[k].ids.copy(), data=fd.nodal_data[k].data.copy(), silent=True)
-        for k in user_vars['elemental']:
-            if k in fd.elemental_data:
-                new.elemental_data.update_data(new.elements.ids, {k: fd.elemental_data.get_attribute_data(k).copy()})
+        for k, (i, d) in cap['nodal'].items():
+            new.nodal_data[k] = FEMAttribute(k, ids=i.copy(), data=d.copy(), silent=True)
+        for k, d in cap['elemental'].items():
+            new.elemental_data.update_data(new.elements.ids, {k: d.copy()})
+        if 'face' in cap:
+            faces = np.empty(len(cap['face'][1]), object)
+            for i, x in enumerate(cap['face'][1]):
+                faces[i] = list(x)
+            new.elemental_data.update({'face': FEMElementalAttribute('face', {
+                'polyhedron': FEMAttribute('face', ids=cap['face'][0].copy(), data=faces, silent=True)})})
     return new
 
 
-# name, callable(fd), family (for the options-ignored signature)
+def clone_fresh(fd):
+    """a freshly built equal mesh (copies of nodes, elements, polyhedron faces, user variables)"""
+    return build(capture(fd))
+
+
+# ----------------------------------------------------------------------------------------------- queries
+def _T(f):
+    return f.nodal_data.get_attribute_data('T')
+
+
+def _E(f):
+    return f.elemental_data.get_attribute_data('E')
+
+
 def query_table():
     q = [
         ('calculate_incidence_matrix()', lambda f: f.calculate_incidence_matrix()),
@@ -170,20 +331,18 @@ def query_table():
         ("calculate_n_hop_adj('nodal', 1, include_self_loop=False)", lambda f: f.calculate_n_hop_adj('nodal', 1, include_self_loop=False)),
         ("calculate_n_hop_adj('elemental', 1, False)", lambda f: f.calculate_n_hop_adj('elemental', 1, False)),
         ("calculate_n_hop_adj('nodal', 3, False)", lambda f: f.calculate_n_hop_adj('nodal', 3, False)),
-        ("calculate_nodal_spatial_gradients(T)", lambda f: f.calculate_nodal_spatial_gradients(f.nodal_data.get_attribute_data('T'))),
-        ("calculate_elemental_spatial_gradients(E)", lambda f: f.calculate_elemental_spatial_gradients(
-            f.elemental_data.get_attribute_data('E'))),
+        ("calculate_nodal_spatial_gradients(T)", lambda f: f.calculate_nodal_spatial_gradients(_T(f))),
+        ("calculate_elemental_spatial_gradients(E)", lambda f: f.calculate_elemental_spatial_gradients(_E(f))),
         ("calculate_element_degree() ", lambda f: f.calculate_element_degree()),
         ("calculate_nodal_spatial_gradients(T, kernel='gauss', alpha=1.)", lambda f: f.calculate_nodal_spatial_gradients(
-            f.nodal_data.get_attribute_data('T'), kernel='gauss', alpha=1.)),
+            _T(f), kernel='gauss', alpha=1.)),
         ("calculate_nodal_spatial_gradients(T, kernel='gauss', alpha=40.)", lambda f: f.calculate_nodal_spatial_gradients(
-            f.nodal_data.get_attribute_data('T'), kernel='gauss', alpha=40.)),
+            _T(f), kernel='gauss', alpha=40.)),
         ("calculate_nodal_spatial_gradients(T, consider_volume=False)", lambda f: f.calculate_nodal_spatial_gradients(
-            f.nodal_data.get_attribute_data('T'), consider_volume=False)),
-        ("calculate_elemental_spatial_gradients(E, n_hop=2)", lambda f: f.calculate_elemental_spatial_gradients(
-            f.elemental_data.get_attribute_data('E'), n_hop=2)),
+            _T(f), consider_volume=False)),
+        ("calculate_elemental_spatial_gradients(E, n_hop=2)", lambda f: f.calculate_elemental_spatial_gradients(_E(f), n_hop=2)),
         ("calculate_elemental_spatial_gradients(E, kernel='exp', alpha=2.)", lambda f: f.calculate_elemental_spatial_gradients(
-            f.elemental_data.get_attribute_data('E'), kernel='exp', alpha=2.)),
+            _E(f), kernel='exp', alpha=2.)),
         ("calculate_euclidean_hop_graph(1.5)", lambda f: f.calculate_euclidean_hop_graph(1.5)),
         ("calculate_euclidean_hop_graph(1.5, mode='nodal')", lambda f: f.calculate_euclidean_hop_graph(1.5, mode='nodal')),
         ('calculate_laplacian_matrix()', lambda f: f.calculate_laplacian_matrix()),
@@ -205,40 +364,118 @@ def query_table():
          lambda f: f.calculate_element_volumes(raise_negative_volume=False, return_abs_volume=True)),
         ('calculate_element_metrics(raise_negative_metric=False)', lambda f: f.calculate_element_metrics(raise_negative_metric=False)),
         ("convert_nodal2elemental('T', calc_average=True)", lambda f: f.convert_nodal2elemental('T', calc_average=True)),
-        ("convert_elemental2nodal('E', 'mean')", lambda f: f.convert_elemental2nodal(
-            f.elemental_data.get_attribute_data('E'), 'mean')),
+        ("convert_elemental2nodal('E', 'mean')", lambda f: f.convert_elemental2nodal(_E(f), 'mean')),
+        # ---- geometric queries that look node ids up / read the coordinates directly (shells, solids, polyhedra)
+        ("calculate_element_volumes(mode='gaussian', raise_negative_volume=False)",
+         lambda f: f.calculate_element_volumes(mode='gaussian', raise_negative_volume=False)),
+        ('calculate_element_areas()', lambda f: f.calculate_element_areas()),
+        ("calculate_element_areas(mode='linear', return_abs_area=False)",
+         lambda f: f.calculate_element_areas(mode='linear', return_abs_area=False)),
+        ("calculate_element_areas(mode='gaussian')", lambda f: f.calculate_element_areas(mode='gaussian')),
+        ('calculate_element_metrics(raise_negative_metric=False, return_abs_metric=True)',
+         lambda f: f.calculate_element_metrics(raise_negative_metric=False, return_abs_metric=True)),
+        ('calculate_edge_lengths()', lambda f: f.calculate_edge_lengths()),
+        ('calculate_angles()', lambda f: f.calculate_angles()),
+        ('calculate_jacobians()', lambda f: f.calculate_jacobians()),
+        ('calculate_element_normals()', lambda f: f.calculate_element_normals()),
+        ("calculate_element_normals(mode='linear')", lambda f: f.calculate_element_normals(mode='linear')),
+        ('calculate_all_element_normals()', lambda f: f.calculate_all_element_normals()),
+        ('calculate_normal_incidence_matrix()', lambda f: f.calculate_normal_incidence_matrix()),
+        ('calculate_element_centroids()', lambda f: f.calculate_element_centroids()),
+        ('integrate(T)', lambda f: f.integrate(_T(f))),
+        ('integrate_elements(T)', lambda f: f.integrate_elements(_T(f))),
+        ("convert_nodal2elemental('NODE', calc_average=True)", lambda f: f.convert_nodal2elemental('NODE', calc_average=True)),
+        ("convert_nodal2elemental(T, mode='mean')", lambda f: f.convert_nodal2elemental(_T(f))),
+        ("calculate_surface_normals(mode='effective')", lambda f: f.calculate_surface_normals(mode='effective')),
+        # ---- derived meshes (the returned object may share arrays and variable tables with its parent)
+        ('to_polyhedron()', lambda f: f.to_polyhedron()),
+        ('to_first_order()', lambda f: f.to_first_order()),
+        ('to_surface(remove_unnecessary_nodes=False)', lambda f: f.to_surface(remove_unnecessary_nodes=False)),
+        ('to_facets(remove_duplicates=False)', lambda f: f.to_facets(remove_duplicates=False)),
     ]
     return q
 
 
-def family(qname):
-    for fam in ('calculate_element_volumes', 'calculate_element_metrics', 'calculate_element_areas'):
-        if qname.startswith(fam):
-            return fam
-    return None
+QUERIES = query_table()
+QNAMES = [q[0] for q in QUERIES]
+DERIVERS = ['to_polyhedron()', 'to_facets()', 'to_surface()', 'to_surface(remove_unnecessary_nodes=False)', 'to_first_order()',
+            'to_facets(remove_duplicates=False)']
+DEFAULT_TAG = 'centroid/signed'
 
 
 def vopt(qname):
-    """with which options a query makes femio evaluate (and store) the element volumes / metrics; None = it does not"""
+    """with which options a query makes femio evaluate (and store) the element volumes / areas / metrics"""
     if qname.startswith('calculate_element_volumes'):
-        mode = 'linear' if "mode='linear'" in qname else 'centroid'
+        mode = 'linear' if "mode='linear'" in qname else 'gaussian' if "mode='gaussian'" in qname else 'centroid'
         return mode + ('/abs' if 'return_abs_volume=True' in qname else '/signed')
-    if reads_stored(qname):
-        return 'centroid/signed'
-    return None
-
-
-def reads_stored(qname):
-    """queries that read the derived variables stored in elemental_data (volume / area / metric), directly or as weights"""
-    return family(qname) is not None or qname.startswith(('convert_elemental2nodal', 'calculate_nodal_spatial', 'calculate_elemental_spatial'))
+    if qname.startswith('calculate_element_areas'):
+        mode = 'linear' if "mode='linear'" in qname else 'gaussian' if "mode='gaussian'" in qname else 'centroid'
+        return mode + ('/signed' if 'return_abs_area=False' in qname else '/abs')
+    if qname.startswith('calculate_element_metrics'):
+        return 'centroid' + ('/abs' if 'return_abs_metric=True' in qname else '/signed')
+    return DEFAULT_TAG
 
 
 def base_name(qname):
-    return qname.split('(')[0]
+    return qname.split('(')[0].strip()
 
 
-def make_object(r, kind, sibling_of=None):
-    from femio import FEMAttribute
+# ----------------------------------------------------------------------------------------------- objects
+ROOT_KINDS = ['tet', 'hex', 'prism', 'mixed', 'tet2', 'tri', 'quad', 'poly']
+FAMILIES = {'solid': ['tet', 'hex', 'prism', 'tet2', 'mixed'], 'shell': ['tri', 'quad'], 'poly': ['poly']}
+OFFSETS = [(10., 20., 30.), (-7.5, 100., 3.25), (1000., -2000., 500.)]
+_CHILD_APPL = {}
+_PENDING = {}
+_APPL = {}      # class of object -> set of query indices that do not raise NotImplementedError / KeyError on it
+
+
+def gen_spec(r, kind, max_cells=2):
+    geo = dict(max_cells=max_cells, jitter=True, voids=False, unref=False, affine=False)
+    if kind in ('tet', 'hex', 'prism', 'mixed'):
+        m = mg.gen_geometric(r, kind=kind, **geo)
+    elif kind == 'tet2':
+        m = mg.promote_tet2(r, mg.gen_geometric(r, kind='tet', **geo))
+    elif kind in ('tri', 'quad'):
+        solid = mg.gen_geometric(r, kind='tet' if kind == 'tri' else 'hex', **geo)
+        with contextlib.redirect_stdout(io.StringIO()):
+            s = mg.to_femio(solid).to_surface()
+        rows = [(int(e), [int(x) for x in c]) for e, c in zip(s.elements.ids, s.elements.data)]
+        eids = r.sample(range(1, 4 * len(rows) + 2), len(rows))
+        rows = [(e, c) for e, (_, c) in zip(eids, rows)]
+        r.shuffle(rows)
+        m = {'kind': kind, 'order': solid['order'], 'nodes': [(int(i), tuple(float(x) for x in p)) for i, p in zip(s.nodes.ids, s.nodes.data)],
+             'blocks': {kind: rows}}
+    else:
+        # small: to_polyhedron converts element by element through a jitted function returning a Python list
+        base = r.choice(['tet', 'hex', 'prism'])
+        geo['max_cells'] = min(max_cells, 2 if base == 'hex' else 1)
+        m = mg.gen_geometric(r, kind=base, **geo)
+        m['poly'] = True
+    m['kind'] = kind
+    if r.random() < .5:     # not centred at the origin
+        off = r.choice(OFFSETS)
+        m['nodes'] = [(i, tuple(float(x) + d for x, d in zip(p, off))) for i, p in m['nodes']]
+        m['offset'] = off
+    return m
+
+
+_POOL = {}
+
+
+def pooled_spec(r, kind, size=6):
+    """systematic streams (thousands of 3-op histories in the thorough tier) draw their mesh from a small pool per kind:
+    generating a conforming mesh with exact rational geometry costs more than the history itself.  Unreferenced nodes, inverted
+    tets, user variables and (for siblings) storage orders are still drawn per object."""
+    pool = _POOL.setdefault(kind, [])
+    if len(pool) < size:
+        pool.append(gen_spec(r, kind))
+        return pool[-1]
+    return r.choice(pool)
+
+
+def make_object(r, kind, sibling_of=None, pooled=False):
+    if pooled and sibling_of is None:
+        return _finish_object(r, kind, pooled_spec(r, kind), True)
     if sibling_of is not None:
         # same sizes and topology, other storage order and coordinates: anything shared between objects shows
         m = {k: v for k, v in sibling_of.items()}
@@ -248,36 +485,94 @@ def make_object(r, kind, sibling_of=None):
         m['blocks'] = {t: list(b) for t, b in sibling_of['blocks'].items()}
         for b in m['blocks'].values():
             r.shuffle(b)
-    else:
-        m = mg.gen_geometric(r, kind=kind, max_cells=2, jitter=True, voids=False, unref=False, affine=False)
-        return _finish_object(r, kind, m, FEMAttribute, True)
-    return _finish_object(r, kind, m, FEMAttribute, False)
+        return _finish_object(r, kind, m, False)
+    return _finish_object(r, kind, gen_spec(r, kind), True)
 
 
-def _finish_object(r, kind, m, FEMAttribute, fresh):
-    base = {'nodes': list(m['nodes']), 'blocks': {t: list(b) for t, b in m['blocks'].items()}, 'kind': m['kind'],
-            'order': m['order']}
-    nodes = list(m['nodes'])
-    n_extra = r.choice([0, 1, 2])
-    mx = max(i for i, _ in nodes)
+def _finish_object(r, kind, m, fresh):
+    from femio import FEMAttribute
     from fractions import Fraction as F
-    if not fresh:
-        n_extra = 0
-    for k in range(n_extra):   # unreferenced nodes so that remove_useless_nodes is a real modification
-        nodes.insert(r.randint(0, len(nodes)), (mx + 3 + k, (F(50 + k), F(50), F(50))))
+    base = {k: v for k, v in m.items()}
+    base['nodes'] = list(m['nodes'])
+    base['blocks'] = {t: list(b) for t, b in m['blocks'].items()}
+    nodes = list(m['nodes'])
+    # unreferenced nodes so that remove_useless_nodes is a real modification.  (Not for polyhedra: their face table holds
+    # storage indices which remove_useless_nodes does not renumber - noted, a different defect.)
+    n_extra = r.choice([0, 1, 2]) if fresh and not m.get('poly') else 0
+    mx = max(i for i, _ in nodes)
+    used = {i for i, _ in nodes}
+    gaps = [i for i in range(min(used) + 1, min(mx, min(used) + 400)) if i not in used]
+    for k in range(n_extra):
+        # id in the middle of the id range when there is a gap (remove_useless_nodes then drops a row in the middle of the
+        # id-sorted table), else beyond the largest id; storage position anywhere
+        nid = mx + 3 + k
+        if gaps and r.random() < .6:
+            nid = gaps.pop(r.randrange(len(gaps)))
+        nodes.insert(r.randint(0, len(nodes)), (nid, (F(50 + k), F(50), F(50))))
+    m = dict(m)
     m['nodes'] = nodes
-    if kind == 'tet' and r.random() < .6:   # some inverted tets so that make_elements_positive is a real modification
-        rows = m['blocks']['tet']
+    if 'tet' in m['blocks'] and kind in ('tet',) and r.random() < .6:   # inverted tets: make_elements_positive is a real modification
+        rows = m['blocks']['tet'] = list(m['blocks']['tet'])
         for idx in r.sample(range(len(rows)), max(1, len(rows) // 3)):
             e, c = rows[idx]
             rows[idx] = (e, [c[0], c[2], c[1], c[3]])
     fd = mg.to_femio(m)
     with contextlib.redirect_stdout(io.StringIO()):
+        if m.get('poly'):
+            fd = clone_fresh(fd.to_polyhedron())
         fd.nodal_data['T'] = FEMAttribute('T', ids=fd.nodes.ids, data=np.array(
             [[r.uniform(-9, 9)] for _ in fd.nodes.ids]), silent=True)
         fd.elemental_data.update_data(fd.elements.ids, {'E': np.array([[r.uniform(1, 9)] for _ in fd.elements.ids])})
     fd._verif_base = base
+    fd._verif_kind = kind
     return fd
+
+
+def describe_object(fd):
+    """concrete description of a live object for the replay file"""
+    nd, ed = fd.nodal_data.data, fd.elemental_data.data
+    d = {'kind': getattr(fd, '_verif_kind', None), 'node_ids': np.asarray(fd.nodes.ids).tolist(),
+         'coordinates': np.asarray(fd.nodes.data, dtype=float).tolist(),
+         'elements': {t: {'ids': np.asarray(e.ids).tolist(), 'nodes': [[int(x) for x in row] for row in e.data]}
+                      for t, e in fd.elements.items()}}
+    if 'T' in nd:
+        d['T'] = np.asarray(nd['T'].data, dtype=float).ravel().tolist()
+    if 'E' in ed:
+        d['E'] = np.asarray(ed['E'].data, dtype=float).ravel().tolist()
+    return d
+
+
+def class_of(fd):
+    return (tuple(sorted(fd.elements.keys())), 'T' in fd.nodal_data.data, 'E' in fd.elemental_data.data)
+
+
+def applicable(fd, defer=False):
+    """indices of the queries that are implemented for this class of object (probed once per class on a private clone).
+    The probe goes through the lru caches, so it is never made in the middle of a history: with `defer` an unknown class is
+    probed after the history (until then every query counts as implemented)"""
+    key = class_of(fd)
+    if key not in _APPL and defer:
+        _PENDING.setdefault(key, capture(fd))
+        return set(range(len(QUERIES)))
+    if key not in _APPL:
+        probe = clone_fresh(fd)
+        ok = set()
+        with contextlib.redirect_stdout(io.StringIO()):
+            for qi, (qn, qf) in enumerate(QUERIES):
+                try:
+                    qf(probe)
+                    ok.add(qi)
+                except (NotImplementedError, KeyError):
+                    pass
+                except Exception:
+                    ok.add(qi)
+        clear_caches()
+        _APPL[key] = ok
+    return _APPL[key]
+
+
+MODS = ['remove_useless_nodes', 'make_elements_positive', 'connectivity assignment', 'coordinate assignment',
+        'user variable overwrite']
 
 
 def apply_modifier(r, fd, which):
@@ -297,99 +592,336 @@ def apply_modifier(r, fd, which):
             fd.elements.data = data
 
 
-def run_history(ctx, hid, script=None):
+# ----------------------------------------------------------------------------------------------- provenance
+def p_merge(a, b):
+    v = dict(a[0])
+    for k, x in b[0].items():
+        v[k] = min(v.get(k, x), x)
+    return (v, a[1] | b[1])
+
+
+class History:
+    """state of one history: live objects, versions, traced provenance of every cache entry and stored variable"""
+
+    def __init__(self, ctx, hid, objs, label):
+        self.ctx, self.hid, self.objs, self.label = ctx, hid, list(objs), label
+        n = len(objs)
+        self.alive = [True] * n
+        self.parent = [None] * n
+        self.versions = [0] * n
+        self.mods = [[] for _ in range(n)]        # modifier that produced version k+1
+        self.state_no = [0] * n                   # bumped whenever the user-visible state of the object changes
+        self.snaps = [user_snapshot(fd) for fd in objs]
+        self.kept = [None] * n
+        self.lru_prov = {}                        # (recv id, meth, key) -> (provenance, lru-only stamp)
+        self.stored = {}                          # (table id, name) -> provenance of the stored derived variable
+        self.derived = {}
+        for fd in objs:
+            self.derived.update(derived_state(fd))
+        self.descr = [describe_object(fd) for fd in objs]
+        self.hist = []
+        self.records = []
+        self.ops_model = []
+        self.model_on = True
+        self.rules = {}
+        self.argids = {}
+        self.pristine = {}
+        self.tmp_ids = {}
+        self.replayed = {}
+        self.mirror_ok = [True] * n               # does nodal_data['NODE'] of the object still mirror its node table?
+        self.tmp_keep = []
+
+    # -- bookkeeping
+    def live(self):
+        return [i for i, a in enumerate(self.alive) if a]
+
+    def index_of(self, recv_id):
+        for i, fd in enumerate(self.objs):
+            if id(fd) == recv_id:
+                return i
+        return None
+
+    def case(self):
+        return {'stream': self.label, 'objects': self.descr, 'history': [list(h) for h in self.hist]}
+
+    def adopt(self, child, parent, how):
+        self.objs.append(child)
+        self.alive.append(True)
+        self.parent.append(parent)
+        self.versions.append(0)
+        self.mods.append([])
+        self.state_no.append(0)
+        self.snaps.append(user_snapshot(child))
+        self.kept.append(None)
+        self.mirror_ok.append(True)
+        child._verif_kind = f'{how} of object {parent}'
+        self.descr.append({'derived': how, 'from_object': parent})
+        self.derived.update(derived_state(child))
+        return len(self.objs) - 1
+
+    def resnapshot(self):
+        """snapshots of every live object; returns {object: [changed parts]}"""
+        changed = {}
+        for i in self.live():
+            s = user_snapshot(self.objs[i])
+            if s != self.snaps[i]:
+                changed[i] = [k for k in s if s[k] != self.snaps[i][k]]
+                self.snaps[i] = s
+                self.state_no[i] += 1
+        return changed
+
+    def pristine_clone(self, o):
+        k = (o, self.state_no[o])
+        if k not in self.pristine:
+            self.pristine[k] = capture(self.objs[o])
+        return k
+
+    # -- provenance of one traced query
+    def provenance(self, o, log, toptab, tag):
+        versions = self.versions
+        first_write = {}
+        for tab in [toptab] + [e['tab'] for e in log]:
+            for kind, tid, name, seq in tab:
+                if kind == 'w':
+                    first_write[(tid, name)] = min(first_write.get((tid, name), seq), seq)
+        stale_reads = []
+        flags = set()
+
+        def reads(tab):
+            P = ({}, frozenset())
+            for kind, tid, name, seq in tab:
+                if kind != 'r' or seq >= first_write.get((tid, name), 1 << 60):
+                    continue
+                if (tid, name) in self.stored:
+                    P = p_merge(P, self.stored[(tid, name)])
+                    stale_reads.append(name)
+                elif name == 'NODE' and tid == id(self.objs[o].nodal_data) and not self.mirror_ok[o]:
+                    stale_reads.append(name)
+                    flags.add('detached-node-variable')
+            return P
+        n = len(log)
+
+        def proc(i):
+            e = log[i]
+            ridx = self.index_of(e['recv'])
+            owner = o if ridx is None else ridx
+            kk = (e['recv'], e['meth'], e['key'])
+            if e['hit']:
+                got = self.lru_prov.get(kk)
+                if got is None:
+                    got = (({owner: versions[owner]}, frozenset()), versions[owner])
+                e['ls'] = got[1]
+                return got[0], got[1], i + 1
+            P = ({owner: versions[owner]}, frozenset())
+            ls = versions[owner]
+            j = i + 1
+            while j < n and log[j]['depth'] > e['depth']:
+                jj = j
+                Pc, lsc, j = proc(jj)
+                P = p_merge(P, Pc)
+                if log[jj]['recv'] == e['recv']:
+                    ls = min(ls, lsc)
+            P = p_merge(P, reads(e['tab']))
+            self.lru_prov[kk] = (P, ls)
+            e['ls'] = ls
+            return P, ls, j
+        P = ({o: versions[o]}, frozenset())
+        ls = versions[o]
+        i = 0
+        while i < n:
+            ii = i
+            Pc, lsc, i = proc(ii)
+            P = p_merge(P, Pc)
+            if log[ii]['recv'] == id(self.objs[o]):
+                ls = min(ls, lsc)
+        P = p_merge(P, reads(toptab))
+        return P, ls, sorted(set(stale_reads)), flags
+
+    def restamp_stored(self, P, tag, keep_old=False):
+        """derived variables that appeared / changed get the provenance P of the operation that wrote them: for a query its
+        own provenance; for an in-place modifier (make_elements_positive stores the metrics of the mesh as it WAS,
+        remove_useless_nodes filters every nodal variable) the version before the modification, resp. what the variable
+        had (keep_old).  nodal_data['NODE'] is the constructor's mirror of the node table: it is current exactly as long as it
+        still mirrors it (a derived object built on the same table rebinds it to its own attribute)."""
+        new = {}
+        for i in self.live():
+            new.update(derived_state(self.objs[i]))
+        for k, d in new.items():
+            if self.derived.get(k) != d:
+                if not (keep_old and k in self.stored):
+                    self.stored[k] = (dict(P[0]), P[1] | {f'{k[1]} stored by {tag}'})
+        for k in list(self.stored):
+            if k not in new:
+                del self.stored[k]
+        self.derived = new
+        for i in self.live():
+            fd = self.objs[i]
+            mirror = fd.nodal_data.data.get('NODE')
+            try:
+                self.mirror_ok[i] = mirror is None or (self.snaps[i]['coordinates'] == digest(mirror.data)
+                                                       and self.snaps[i]['node ids'] == digest(mirror.ids))
+            except Exception:
+                self.mirror_ok[i] = False
+
+
+def history_only(h, rec, idx):
+    """does the SAME sequence of queries of this object, made on a freshly built equal mesh of the CURRENT state (no in-place
+    modification, no other object), reproduce the deviating value?  Then the deviation is not a matter of a modification.
+    One pass per (object, state): all queries of the object in order on one clone, the value at every position recorded."""
+    key = (rec['obj'], rec['snapshot'])
+    if key not in h.replayed:
+        clear_caches()
+        clone = build(h.pristine[rec['snapshot']])
+        out = {}
+        with contextlib.redirect_stdout(io.StringIO()):
+            for i, r2 in enumerate(h.records):
+                if r2['obj'] != rec['obj']:
+                    continue
+                try:
+                    v = QUERIES[r2['q']][1](clone)
+                    out[i] = digest(v) if r2['snapshot'] == rec['snapshot'] else None
+                except Exception as e:
+                    out[i] = ('raises', type(e).__name__)
+        clear_caches()
+        h.replayed[key] = out
+    return h.replayed[key].get(idx) == rec['digest']
+
+
+def signature_of(h, rec, hist_only):
+    """attribute a value that differs from the fresh one; see the module docstring"""
+    P, o, q = rec['P'], rec['obj'], base_name(rec['qname'])
+    stored_by = sorted(P[1])
+    if hist_only:
+        if stored_by:
+            return f'options-ignored:{q}', ('the same queries on an unmodified equal mesh give the same value: it returned a derived '
+                                           f'variable as stored by an earlier query ({", ".join(stored_by)}), whatever the options')
+        return f'history-dependent:{q}', 'the same queries on an unmodified equal mesh give the same value; it read no stored variable'
+    stale = {}
+    for oo, v in P[0].items():
+        cur = rec['versions'][oo] if oo < len(rec['versions']) else 0
+        if v < cur:
+            stale[oo] = h.mods[oo][v:cur]
+    if 'detached-node-variable' in rec['flags']:
+        return f'detached-node-variable:{q}', ("it read nodal_data['NODE'], which no longer mirrors the node table of the object: another "
+                                              'object built on the same variable table (to_facets / to_surface / to_polyhedron result) '
+                                              'rebound it, and the coordinates of one of them were assigned since')
+    if stale:
+        kinds = sorted({m for ms in stale.values() for m in ms})
+        if len(kinds) == 1:
+            return f'stale-after:{kinds[0]}:{q}', f'its value was computed from the mesh as it was before {kinds[0]}'
+        return f'stale-after-modify:{q}', f'its value was computed from the mesh as it was before {" / ".join(kinds)}'
+    if any(oo != o for oo in P[0]):
+        return f'shared-stored:{q}', ('it returned a derived variable stored by a query on ANOTHER live object that shares the '
+                                     'variable table (derived object)')
+    if stored_by:
+        return f'options-ignored:{q}', f'it returned a derived variable as stored by an earlier query ({", ".join(stored_by)})'
+    return f'history-dependent:{q}', 'it read no cache entry or stored variable older than the mesh'
+
+
+def run_history(ctx, hid, script=None, kind=None, label='random', n_roots=1):
     r = ctx.rng
-    queries = query_table()
-    kind = r.choice(['tet', 'tet', 'hex', 'prism'])
-    n_obj = r.choice([1, 1, 2, 3]) if script is None else 1 + max(op[1] for op in script)
+    kind = kind or r.choice(['tet', 'tet', 'hex', 'prism', 'tet', 'hex', 'mixed', 'tet2', 'tri', 'quad', 'poly', 'poly'])
+    n_obj = r.choice([1, 1, 2, 3]) if script is None else n_roots
     objs = []
     for i in range(n_obj):
         sib = objs[0]._verif_base if (i > 0 and r.random() < .6) else None
-        objs.append(make_object(r, kind, sibling_of=sib))
-    user_vars = {'nodal': ['T'], 'elemental': ['E']}
+        objs.append(make_object(r, kind, sibling_of=sib, pooled=script is not None))
     names = sorted(_WRAPPED)
     meth_id = {n: i for i, n in enumerate(names)}
     caps = {meth_id[n]: _WRAPPED[n].cache_parameters()['maxsize'] for n in names}
+    appl = [sorted(applicable(fd)) for fd in objs]
     clear_caches()
     _TRACE['objs'] = {}
-    versions = [0] * n_obj
+    h = History(ctx, hid, objs, label)
     asked = [[] for _ in range(n_obj)]
-    kept = [None] * n_obj
-    modified = [False] * n_obj
-    fam_opts = [dict() for _ in range(n_obj)]
-    argids = {}
-    rules = {}
-    ops_model = []
-    model_on = True
-    records = []       # per op
-    hist = []
     n_ops = r.randint(2, ctx.n(14, 40)) if script is None else len(script)
     wdir = ctx.tmp / f'w{hid}'
     wdir.mkdir(parents=True, exist_ok=True)
+    ctx.count('history-kind:' + kind)
     for step in range(n_ops):
+        setup_only = False
         if script is not None:
-            op = script[step]
+            op = tuple(script[step][:3])
+            setup_only = len(script[step]) > 3
+            if op[1] >= len(h.objs) or not h.alive[op[1]]:
+                ctx.count('scripted-op-skipped(no such live object)')
+                continue
         else:
             u = r.random()
-            o = r.randrange(n_obj)
-            if u < .74:
+            o = r.choice(h.live())
+            while len(asked) < len(h.objs):
+                asked.append([])
+                appl.append(sorted(applicable(h.objs[len(appl)], defer=True)))
+            if u < .70:
                 # re-query bias: history dependence shows when a query is repeated after something else happened
                 if asked[o] and r.random() < .4:
                     op = ('q', o, r.choice(asked[o]))
+                elif appl[o] and r.random() < .95:
+                    op = ('q', o, r.choice(appl[o]))
                 else:
-                    op = ('q', o, r.randrange(len(queries)))
+                    op = ('q', o, r.randrange(len(QUERIES)))
                 asked[o].append(op[2])
-            elif u < .9:
-                op = ('m', o, r.choice(['remove_useless_nodes', 'make_elements_positive', 'connectivity assignment',
-                                        'coordinate assignment', 'user variable overwrite']))
-            elif u < .96:
+            elif u < .86:
+                while h.parent[o] is not None:      # in-place modifiers are applied to root objects only
+                    o = h.parent[o]
+                op = ('m', o, r.choice(MODS))
+            elif u < .91:
                 op = ('w', o, r.choice(['ucd', 'fistr']))
+            elif u < .97:
+                cand = [QNAMES.index(d) for d in DERIVERS if QNAMES.index(d) in appl[o]]
+                op = ('d', o, r.choice(cand)) if cand and len(h.live()) < 4 else ('q', o, r.choice(appl[o] or [0]))
             else:
                 op = ('c', o, 'reverse-surface-facets')
         kindop, o, arg = op
-        fd = objs[o]
-        if kindop == 'm' and arg == 'make_elements_positive' and kind != 'tet':
-            arg = 'remove_useless_nodes'
-            op = ('m', o, arg)
-        hist.append([kindop, o, arg if kindop != 'q' else queries[arg][0]])
-        before = user_snapshot(fd, user_vars)
-        case = {'mesh_kind': kind, 'n_objects': n_obj, 'history': [list(h) for h in hist]}
-        if kindop == 'q':
-            qname, qf = queries[arg]
-            _TRACE['log'] = []
-            _TRACE['depth'] = 0
-            _TRACE['on'] = True
+        fd = h.objs[o]
+        h.hist.append([kindop, o, arg if kindop not in 'qd' else QNAMES[arg]])
+        if kindop in 'qd':
+            qname, qf = QUERIES[arg]
+            tag = vopt(qname)
+            _TRACE.update(log=[], depth=0, stack=[], tab=[], upd=0, on=True)
             err = None
+            val = None
             try:
                 with contextlib.redirect_stdout(io.StringIO()):
                     val = qf(fd)
                 dg = digest(val)
                 if qname == 'to_surface()':
-                    kept[o] = val
+                    h.kept[o] = val
             except Exception as e:
                 err = f'{type(e).__name__}: {e}'
                 dg = ('raises', type(e).__name__)
             finally:
                 _TRACE['on'] = False
-            log = _TRACE['log']
-            after = user_snapshot(fd, user_vars)
-            snap = clone_fresh(fd, user_vars) if before == after else None
-            rec = {'step': step, 'obj': o, 'qname': qname, 'q': arg, 'digest': dg, 'version': versions[o],
-                   'modified_before': modified[o], 'hits': sum(1 for e in log if e['hit']), 'misses': sum(1 for e in log if not e['hit']),
-                   'snapshot': snap, 'case': case, 'err': err,
-                   # a stored derived variable (volume / area / metric) may have been written by ANY earlier query on this
-                   # object (metrics -> volumes, conversions -> metrics, ...), with that query's own options
-                   # the stored variable explains a deviation only if an earlier query of this object evaluated the volumes
-                   # with OTHER options than this query would use
-                   'opts_differ': reads_stored(qname) and any(v != vopt(qname) for v in fam_opts[o].get('vopts', []))}
-            if vopt(qname) is not None:
-                fam_opts[o].setdefault('vopts', []).append(vopt(qname))
-            records.append(rec)
+            log, toptab = _TRACE['log'], _TRACE['tab']
+            P, ls, stale_reads, flags = h.provenance(o, log, toptab, tag)
+            changed = h.resnapshot()
+            case = h.case()
+            if changed:
+                oo = sorted(changed)[0]
+                where = 'the mesh' if oo == o else f'ANOTHER live object (object {oo}, {h.descr[oo].get("derived", "independent")})'
+                ctx.fail(f'user-data-changed:{base_name(qname)}:{changed[oo][0]}',
+                         f'{qname} on object {o} changed the {", ".join(changed[oo])} of {where}', case, None)
+                return
+            h.restamp_stored(P, base_name(qname))
+            modified_before = h.versions[o] > 0
+            rec = {'step': step, 'obj': o, 'qname': qname, 'q': arg, 'digest': dg, 'version': h.versions[o],
+                   'versions': list(h.versions), 'hits': sum(1 for e in log if e['hit']), 'misses': sum(1 for e in log if not e['hit']),
+                   'snapshot': h.pristine_clone(o), 'case': case, 'err': err, 'P': P, 'ls': ls, 'tag': tag,
+                   'reads_stored': bool(stale_reads), 'n_hist': len(h.hist), 'flags': flags, 'setup_only': setup_only}
+            h.records.append(rec)
             # rules from the trace: children of every miss
             top = [e for e in log if e['depth'] == 0]
-            for i, e in enumerate(log):
-                key = (meth_id[e['meth']], argids.setdefault((e['meth'], e['key']), len(argids)))
-                e['mkey'] = key
+            tmp_serial = {}
+            for e in log:
+                # the nested calls of a query depend on the MESH of its receiver (e.g. which facet types its surface has), not only
+                # on method / arguments / version: the argument id carries the receiver as well - the live object, or (query,
+                # temporary) for a temporary mesh built by the query.  (Cache keys are unaffected: they contain the object anyway.)
+                ri = h.index_of(e['recv'])
+                if ri is None:
+                    akey = (e['key'], 'tmp', len(h.records), tmp_serial.setdefault(e['recv'], len(tmp_serial)))
+                else:
+                    akey = (e['key'], 'obj', ri)
+                e['mkey'] = (meth_id[e['meth']], h.argids.setdefault((e['meth'], akey), len(h.argids)))
             for i, e in enumerate(log):
                 if e['hit']:
                     continue
@@ -404,105 +936,138 @@ def run_history(ctx, hid, script=None):
                         else:
                             recv = tmp_ids.setdefault(f['recv'], len(tmp_ids) + 1)
                         children.append((f['mkey'][0], f['mkey'][1], recv))
-                ver = next((versions[i] for i, ob in enumerate(objs) if id(ob) == e['recv']), 0)
+                ri = h.index_of(e['recv'])
+                ver = h.versions[ri] if ri is not None else 0
                 rkey = (e['mkey'][0], e['mkey'][1], ver)
-                if rkey in rules and rules[rkey] != children:
-                    ctx.notes.append(f'nested calls of {e["meth"]}{e["key"]} are not static: {rules[rkey]} vs {children}')
-                rules.setdefault(rkey, children)
+                if rkey in h.rules and [(c[0], c[2]) for c in h.rules[rkey]] != [(c[0], c[2]) for c in children]:
+                    ctx.notes.append(f'nested calls of {e["meth"]}{e["key"]} are not static: {h.rules[rkey]} vs {children}')
+                h.rules.setdefault(rkey, children)
             if err is not None:
-                model_on = False       # lru_cache stores nothing when the wrapped call raises: not modelled
+                h.model_on = False       # lru_cache stores nothing when the wrapped call raises: not modelled
                 ctx.count('query-raised(model off for the rest of the history)')
-            if not model_on:
-                pass
-            elif len(top) == 1:
-                ops_model.append(('q', o + 1, top[0]['mkey'][0], top[0]['mkey'][1], len(records) - 1))
-            elif top:
-                # an uncached query that makes several top-level cached calls: one model query per call
-                for tcall in top:
-                    ops_model.append(('q', o + 1, tcall['mkey'][0], tcall['mkey'][1], len(records) - 1))
+            if h.model_on:
+                for tcall in top:    # an uncached query may make several top-level cached calls: one model query per call
+                    ri = h.index_of(tcall['recv'])
+                    if ri is None:       # a top-level cached call on a temporary mesh built by the (uncached) query
+                        mo = h.tmp_ids.setdefault(tcall['recv'], 500 + len(h.tmp_ids))
+                        h.tmp_keep.append(tcall)
+                    else:
+                        mo = ri + 1
+                    h.ops_model.append(('q', mo, tcall['mkey'][0], tcall['mkey'][1], len(h.records) - 1, ri == o))
             ctx.case((hid, step), sample={'op': 'query', 'query': qname, 'object': o, 'hits': rec['hits'], 'misses': rec['misses'],
-                                          'after_modification': modified[o]},
-                     nontrivial=rec['hits'] > 0 or modified[o] or o > 0)
+                                          'after_modification': modified_before},
+                     nontrivial=rec['hits'] > 0 or modified_before or o > 0)
             ctx.count('query:' + base_name(qname))
-            if before != after:
-                what = [k for k in before if before[k] != after[k]]
-                ctx.fail(f'user-data-changed:{base_name(qname)}:{what[0]}', f'{qname} changed the {", ".join(what)} of the mesh', case, None)
-                return
+            if stale_reads:
+                ctx.count('query-read-stored-variable:' + '+'.join(stale_reads))
+            if kindop == 'd':
+                if (err is None and hasattr(val, 'nodes') and val is not fd and h.index_of(id(val)) is None
+                        and all(e['recv'] != id(val) for e in log)):
+                    ci = h.adopt(val, o, qname)
+                    if h.kept[o] is val:
+                        h.kept[o] = None
+                    shares = [w for w, a, b in (('coordinates', val.nodes.data, fd.nodes.data),) if np.shares_memory(a, b)]
+                    if val.nodal_data is fd.nodal_data:
+                        shares.append('nodal table')
+                    if val.elemental_data is fd.elemental_data:
+                        shares.append('elemental table')
+                    ctx.count(f'derived-object:{base_name(qname)}:shares[{",".join(shares) or "nothing"}]')
+                    ctx.count(f'derived-object:adopted-as-object-{ci}')
+                else:
+                    ctx.count('derived-object:not-adopted')
         elif kindop == 'm':
-            apply_modifier(r, fd, arg)
-            after = user_snapshot(fd, user_vars)
-            changed = before != after
-            ctx.case((hid, step), sample={'op': 'modify', 'modifier': arg, 'object': o, 'changed_mesh': changed}, nontrivial=changed)
+            ver_before = h.versions[o]
+            try:
+                apply_modifier(r, fd, arg)
+                merr = None
+            except Exception as e:
+                merr = type(e).__name__
+                ctx.count(f'modifier-raised:{arg}:{merr}')
+            changed = h.resnapshot()
+            mesh_changed = [i for i, parts in changed.items() if any(p in MESH_PARTS for p in parts)]
+            ctx.case((hid, step), sample={'op': 'modify', 'modifier': arg, 'object': o, 'changed_mesh': bool(mesh_changed)},
+                     nontrivial=bool(mesh_changed))
             ctx.count('modifier:' + arg + ('' if changed else '(no-op)'))
-            if changed and arg != 'user variable overwrite':
-                versions[o] += 1
-                modified[o] = True
-                if model_on:
-                    ops_model.append(('m', o + 1))
+            for i in mesh_changed:
+                h.versions[i] += 1
+                h.mods[i].append(arg)
+                if h.model_on:
+                    h.ops_model.append(('m', i + 1))
+            if arg == 'remove_useless_nodes' and o in mesh_changed:
+                # the modifier rebuilds the shared variable tables: objects derived from this one are no longer used
+                for i in h.live():
+                    p = h.parent[i]
+                    while p is not None and p != o:
+                        p = h.parent[p]
+                    if p == o and i != o:
+                        h.alive[i] = False
+                        ctx.count('derived-object:retired-after-remove_useless_nodes-of-parent')
+            h.restamp_stored(({o: ver_before}, frozenset()), arg, keep_old=True)
         elif kindop == 'c':
             # another live object: the surface mesh an earlier to_surface() of this object returned is modified in place
             # (all its facets reversed by connectivity assignment).  The parent must not notice.
-            ch = kept[o]
+            ch = h.kept[o]
             if ch is not None:
                 with contextlib.redirect_stdout(io.StringIO()):
                     try:
                         ch.elements.data = np.array(ch.elements.data)[:, ::-1].copy()
-                    except Exception as e:   # mixed surfaces cannot be assigned: nothing happened
+                    except Exception:   # mixed surfaces cannot be assigned: nothing happened
                         ctx.count('child-modification:not-applicable')
                         ch = None
-            after = user_snapshot(fd, user_vars)
+            changed = h.resnapshot()
             ctx.case((hid, step), sample={'op': 'modify the surface object returned earlier', 'object': o}, nontrivial=ch is not None)
             ctx.count('child-modification' + ('' if ch is not None else '(no child yet)'))
-            if before != after:
-                what = [k for k in before if before[k] != after[k]]
-                ctx.fail(f'user-data-changed:child-modification:{what[0]}', 'modifying the surface object returned by to_surface() '
-                         f'changed the {", ".join(what)} of the mesh it was extracted from', case, None)
+            if changed:
+                oo = sorted(changed)[0]
+                ctx.fail(f'user-data-changed:child-modification:{changed[oo][0]}', 'modifying the surface object returned by to_surface() '
+                         f'changed the {", ".join(changed[oo])} of live object {oo}', h.case(), None)
                 return
         else:
             try:
                 with contextlib.redirect_stdout(io.StringIO()):
                     fd.write(arg, wdir / f's{step}' / 'mesh', overwrite=True)
             except Exception as e:
-                ctx.notes.append(f'write {arg} raised {type(e).__name__}: {e}')
-            after = user_snapshot(fd, user_vars)
+                ctx.count(f'writer-raised:{arg}:{type(e).__name__}')
+            changed = h.resnapshot()
             ctx.case((hid, step), sample={'op': 'write', 'format': arg, 'object': o}, nontrivial=True)
             ctx.count('writer:' + arg)
-            if before != after:
-                what = [k for k in before if before[k] != after[k]]
-                ctx.fail(f'user-data-changed:write-{arg}:{what[0]}', f"write('{arg}') changed the {', '.join(what)} of the mesh", case, None)
+            if changed:
+                oo = sorted(changed)[0]
+                where = 'the mesh' if oo == o else f'ANOTHER live object (object {oo})'
+                ctx.fail(f'user-data-changed:write-{arg}:{changed[oo][0]}',
+                         f"write('{arg}') of object {o} changed the {', '.join(changed[oo])} of {where}", h.case(), None)
                 return
+            h.restamp_stored(({o: h.versions[o]}, frozenset()), 'write', keep_old=True)
     # ---------------- fresh values (cold caches, freshly built equal meshes)
-    stale = {}
-    for rec in records:
-        if rec['snapshot'] is None:
-            continue
-        clear_caches()
-        try:
-            with contextlib.redirect_stdout(io.StringIO()):
-                fv = digest(queries[rec['q']][1](rec['snapshot']))
-        except Exception as e:
-            fv = ('raises', type(e).__name__)
+    for key in list(_PENDING):
+        if key not in _APPL:
+            applicable(build(_PENDING[key]))
+        del _PENDING[key]
+    fresh_cache = {}
+    for idx, rec in enumerate(h.records):
+        if rec['setup_only']:     # (quick tier) a query that only prepares the caches for the ones after the modifier: its own
+            continue              # value is compared in the other streams; purity snapshots were taken as for every operation
+        fk = (rec['snapshot'], rec['q'])
+        if fk not in fresh_cache:
+            clear_caches()
+            try:
+                with contextlib.redirect_stdout(io.StringIO()):
+                    fresh_cache[fk] = digest(QUERIES[rec['q']][1](build(h.pristine[rec['snapshot']])))
+            except Exception as e:
+                fresh_cache[fk] = ('raises', type(e).__name__)
+        fv = fresh_cache[fk]
         rec['fresh'] = fv
         rec['is_fresh'] = fv == rec['digest']
         if not rec['is_fresh']:
-            if rec['modified_before']:
-                mods_applied = [h[2] for h in rec['case']['history'][:rec['step']] if h[0] == 'm' and h[1] == rec['obj']
-                                and h[2] != 'user variable overwrite']
-                if script is not None and len(mods_applied) == 1:
-                    # systematic sandwich: exactly one in-place change -> attribute the staleness to it
-                    sig = f'stale-after:{mods_applied[0]}:{base_name(rec["qname"]).strip()}'
-                else:
-                    sig = f'stale-after-modify:{base_name(rec["qname"]).strip()}'
-            elif rec['opts_differ']:
-                sig = f'options-ignored:{base_name(rec["qname"]).strip()}'
-            else:
-                sig = f'history-dependent:{base_name(rec["qname"]).strip()}'
+            sig, why = signature_of(h, rec, history_only(h, rec, idx))
             case = dict(rec['case'])
-            case['history'] = case['history'][:rec['step'] + 1]
+            case['history'] = case['history'][:rec['n_hist']]
             ctx.fail(sig, f'{rec["qname"]} on object {rec["obj"]} returned a value different from the value on a freshly built '
-                     f'equal mesh after the history {case["history"]}', case, None)
+                     f'equal mesh ({why}) after the history {case["history"]}'
+                     + (f'; it raised {rec["err"]}' if rec['err'] else ''), case, None)
     clear_caches()
     # ---------------- correspondence with the cache model
+    ops_model, rules, records = h.ops_model, h.rules, h.records
     if ctx.driver is not None and ops_model:
         line = 'c19.run 0 ' + C.enc_list(caps.items(), lambda kv: f'{kv[0]} {kv[1]}') + ' ' + C.enc_list(
             rules.items(), lambda kv: f'{kv[0][0]} {kv[0][1]} {kv[0][2]} ' + C.enc_list(kv[1], lambda c: f'{c[0]} {c[1]} {c[2]}')) + ' ' + \
@@ -510,7 +1075,7 @@ def run_history(ctx, hid, script=None):
         t = C.Toks(ctx.driver.ask(line))
         if t.tok() != 'ok':
             raise RuntimeError('driver')
-        n = t.nat()
+        t.nat()
         per_rec = {}
         for op in ops_model:
             tag = t.tok()
@@ -518,20 +1083,32 @@ def run_history(ctx, hid, script=None):
                 continue
             stamp, hits, misses = t.nat(), t.nat(), t.nat()
             acc = per_rec.setdefault(op[4], {'stamp': None, 'hits': 0, 'misses': 0})
-            acc['stamp'] = stamp if acc['stamp'] is None else min(acc['stamp'], stamp)
+            if op[5]:
+                acc['stamp'] = stamp if acc['stamp'] is None else min(acc['stamp'], stamp)
             acc['hits'] += hits
             acc['misses'] += misses
         for idx, m in per_rec.items():
             rec = records[idx]
+            if m['stamp'] is None:
+                m['stamp'] = rec['version']
             if (m['hits'], m['misses']) != (rec['hits'], rec['misses']):
                 ctx.disagree('cache hits/misses of ' + rec['qname'], rec['case'], {'hits': rec['hits'], 'misses': rec['misses']}, m)
                 break
-            # queries that read the derived variables stored in elemental_data (volume / area / metric) are outside the
+            # the version stamp the model predicts for the returned value = the stamp traced on the real lru entries
+            if m['stamp'] != rec['ls']:
+                ctx.disagree('version stamp of the value of ' + rec['qname'], rec['case'], {'stamp': rec['ls']}, m)
+                break
+            # queries that read the derived variables stored in the variable tables (volume / area / metric) are outside the
             # lru model: their freshness is judged by the oracle only
-            if m['stamp'] == rec['version'] and rec.get('is_fresh') is False and not reads_stored(rec['qname']):
+            if m['stamp'] == rec['version'] and rec.get('is_fresh') is False and not rec['reads_stored'] \
+                    and all(v >= rec['versions'][oo] for oo, v in rec['P'][0].items()):
                 ctx.disagree('model says computed from the current mesh, value differs from fresh: ' + rec['qname'], rec['case'],
                              'stale', m)
                 break
+
+
+def blocks_of(lst, k):
+    return [lst[i:i + k] for i in range(0, len(lst), k)]
 
 
 def run(ctx):
@@ -539,36 +1116,175 @@ def run(ctx):
     ctx.extra['cached_methods'] = {n: _WRAPPED[n].cache_parameters()['maxsize'] for n in sorted(_WRAPPED)}
     for name, j in C.corpus_cases(PROP):
         ctx.count('corpus')
-    # systematic sandwiches: every query, then every kind of in-place change, then the same query again
-    nq = len(query_table())
-    mods = ['remove_useless_nodes', 'make_elements_positive', 'connectivity assignment', 'coordinate assignment',
-            'user variable overwrite']
+    r = ctx.rng
+    nq = len(QUERIES)
+    # which queries are implemented for which kind of mesh (probed on one object per kind)
+    appl = {}
+    pr = random.Random(19)
+    for kd in ROOT_KINDS:     # (one-cell meshes: only whether a query is implemented matters here)
+        appl[kd] = applicable(_finish_object(pr, kd, gen_spec(pr, kd, max_cells=1), True))
+    clear_caches()
+    ctx.extra['applicable_queries_per_kind'] = {kd: len(v) for kd, v in appl.items()}
     k = 0
+    rot = {}
+
+    def kind_for(qis, fams=('solid', 'shell', 'poly')):
+        """a kind on which all the given queries are implemented (rotating), None if there is none"""
+        cands = [kd for f in fams for kd in FAMILIES[f] if all(q in appl[kd] for q in qis)]
+        if not cands:
+            return None
+        key = tuple(cands)
+        rot[key] = rot.get(key, -1) + 1
+        return cands[rot[key] % len(cands)]
+    # (1) systematic sandwiches: every query, then every kind of in-place change, then the same query again
     for qi in range(nq):
-        for mname in (mods if not ctx.quick else [mods[(qi + j) % len(mods)] for j in range(2)] + ['user variable overwrite']):
-            run_history(ctx, f's{k}', script=[('q', 0, qi), ('m', 0, mname), ('q', 0, qi)])
+        # quick: one rotating mesh modifier + (every third query) the user-variable overwrite; the diagonal blocks of stream (3)
+        # are sandwiches with a second modifier
+        for mname in (MODS if not ctx.quick else [MODS[(qi + k) % 4]] + (['user variable overwrite'] if qi % 3 == 0 else [])):
+            kd = kind_for([qi]) if mname != 'make_elements_positive' else ('tet' if qi in appl['tet'] else kind_for([qi]))
+            if kd is None:
+                continue
+            run_history(ctx, f's{k}', script=[('q', 0, qi), ('m', 0, mname), ('q', 0, qi)], kind=kd, label='sandwich [q, modifier, q]')
             k += 1
-    qnames = [q[0] for q in query_table()]
-    qs = qnames.index('to_surface()')
+    qs = QNAMES.index('to_surface()')
     for q2 in ('to_surface()', 'calculate_surface_normals()', 'extract_surface()'):
-        run_history(ctx, f's{k}', script=[('q', 0, qs), ('c', 0, 'reverse-surface-facets'), ('q', 0, qnames.index(q2))])
+        run_history(ctx, f's{k}', script=[('q', 0, qs), ('c', 0, 'reverse-surface-facets'), ('q', 0, QNAMES.index(q2))],
+                    kind=r.choice(['tet', 'hex']), label='modify returned surface')
         k += 1
-    # ordered pairs of different spellings / options of the same query: the second must not see the first
+    # (2) ordered pairs of different spellings / options of the same query: the second must not see the first
     by_base = {}
-    for qi, qn in enumerate(qnames):
-        by_base.setdefault(base_name(qn).strip(), []).append(qi)
+    for qi, qn in enumerate(QNAMES):
+        by_base.setdefault(base_name(qn), []).append(qi)
     pairs = [(a, b) for grp in by_base.values() for a in grp for b in grp if a != b]
     if ctx.quick:
-        ctx.rng.shuffle(pairs)
+        r.shuffle(pairs)
         pairs = pairs[:40]
     for a, b in pairs:
-        run_history(ctx, f's{k}', script=[('q', 0, a), ('q', 0, b)])
+        kd = kind_for([a, b])
+        if kd is None:
+            continue
+        run_history(ctx, f's{k}', script=[('q', 0, a), ('q', 0, b)], kind=kd, label='pair of spellings [a, b]')
         k += 1
+    # (3) [queries A..., modifier, queries B...]: a modifier must be reflected by queries that were NOT asked before it as
+    # well.  Every ordered pair (A, B) of the queries implemented for a family of meshes is covered with at least one modifier
+    # (quick: blocks of 16 x 16, one modifier per pair of blocks; thorough: [A, modifier, block of 8] for every
+    # A and every modifier).
+    n_pair_hist = 0
+    pair_mods = ['remove_useless_nodes', 'coordinate assignment', 'connectivity assignment', 'make_elements_positive']
+    for fam, kinds in FAMILIES.items():
+        qf = sorted(set().union(*[appl[kd] for kd in kinds]))
+        r.shuffle(qf)
+        bl = blocks_of(qf, 16 if ctx.quick else 8)
+        if ctx.quick:
+            covered = set()
+
+            def block_history(A2, B2, kd):
+                nonlocal k, n_pair_hist
+                mname = pair_mods[n_pair_hist % 3] if fam != 'poly' else pair_mods[1 + n_pair_hist % 2]
+                run_history(ctx, f'p{k}', script=[('q', 0, q, 'setup') for q in A2] + [('m', 0, mname)] + [('q', 0, q) for q in B2],
+                            kind=kd, label='[block A, modifier, block B]')
+                covered.update((a, b) for a in A2 for b in B2)
+                k += 1
+                n_pair_hist += 1
+            for i, A in enumerate(bl):
+                for j, B in enumerate(bl):
+                    kd = kinds[(i + j) % len(kinds)]
+                    A2 = [q for q in A if q in appl[kd]]
+                    B2 = [q for q in B if q in appl[kd]]
+                    if A2 and B2:
+                        block_history(A2, B2, kd)
+            # completion: pairs with a query that the kind drawn for their blocks does not implement (integrate: tets only, ...)
+            for extra in range(12):
+                best = None
+                for kd in kinds:
+                    todo = [(a, b) for a in qf for b in qf if a in appl[kd] and b in appl[kd] and (a, b) not in covered]
+                    if todo and (best is None or len(todo) > len(best[1])):
+                        best = (kd, todo)
+                if best is None:
+                    break
+                kd, todo = best
+                cnt = {}
+                for a, b in todo:
+                    cnt[a] = cnt.get(a, 0) + 1
+                A2 = sorted(cnt, key=lambda a: -cnt[a])[:16]
+                cb = {}
+                for a, b in todo:
+                    if a in A2:
+                        cb[b] = cb.get(b, 0) + 1
+                B2 = sorted(cb, key=lambda b: -cb[b])[:16]
+                block_history(A2, B2, kd)
+            ctx.extra.setdefault('ordered_pairs_not_covered', {})[fam] = sum(
+                1 for a in qf for b in qf if (a, b) not in covered and any(a in appl[kd] and b in appl[kd] for kd in kinds))
+        else:
+            for a in qf:
+                for mi, mname in enumerate(pair_mods):
+                    for j, B in enumerate(bl):
+                        cands = [kd for kd in kinds if a in appl[kd]]
+                        if mname == 'make_elements_positive':
+                            cands = [kd for kd in cands if kd == 'tet']
+                        if not cands:
+                            continue
+                        kd = cands[(j + mi) % len(cands)]
+                        B2 = [q for q in B if q in appl[kd]]
+                        if not B2:
+                            continue
+                        run_history(ctx, f'p{k}', script=[('q', 0, a), ('m', 0, mname)] + [('q', 0, q) for q in B2],
+                                    kind=kd, label='[A, modifier, block B]')
+                        k += 1
+                        n_pair_hist += 1
+    ctx.extra['pair_histories'] = n_pair_hist
+    # (4) derived live objects: derive a child (it may share arrays / variable tables with its parent), query the child,
+    # query the parent; every live object is snapshotted after every operation
+    n_der = 0
+    for dname in DERIVERS:
+        di = QNAMES.index(dname)
+        for rep in range(ctx.n(3, 24)):
+            kd = 'tet2' if dname == 'to_first_order()' else kind_for([di], fams=('solid',))
+            if kd is None:
+                continue
+            run_derived(ctx, f'd{k}', kd, di)
+            k += 1
+            n_der += 1
+    ctx.extra['derived_object_histories'] = n_der
+    # (5) writers: every format on every kind of mesh, between two queries (a writer that touches the object shows in the
+    # snapshot taken right after it, or in the query that follows)
+    for kd in ROOT_KINDS:
+        for fmt in ('ucd', 'fistr'):
+            qa, qb = r.choice(sorted(appl[kd])), r.choice(sorted(appl[kd]))
+            run_history(ctx, f'w{k}', script=[('q', 0, qa), ('w', 0, fmt), ('q', 0, qb)] + ([('w', 0, fmt), ('q', 0, qa)] if not ctx.quick else []),
+                        kind=kd, label='[query, write, query]')
+            k += 1
     ctx.extra['sandwich_histories'] = k
-    for h in range(ctx.n(160, 1200)):
-        run_history(ctx, h)
+    for hno in range(ctx.n(72, 1000)):
+        run_history(ctx, hno)
     clear_caches()
 
 
+def run_derived(ctx, hid, kind, di):
+    """[derive child, geometric / random queries on the child and on the parent alternately]"""
+    r = ctx.rng
+    if (kind, di) not in _CHILD_APPL:
+        pr = make_object(random.Random(di), kind)
+        with contextlib.redirect_stdout(io.StringIO()):
+            try:
+                child = QUERIES[di][1](clone_fresh(pr))
+                ca = sorted(applicable(child)) if hasattr(child, 'nodes') else []
+            except Exception:
+                ca = []
+        clear_caches()
+        _CHILD_APPL[(kind, di)] = (sorted(applicable(pr)), ca)
+    pa, ca = _CHILD_APPL[(kind, di)]
+    script = [('d', 0, di)]
+    for j in range(2):
+        if ca:
+            script.append(('q', 1, r.choice(ca)))
+        script.append(('q', 0, r.choice(pa)))
+    if ca and r.random() < .5:
+        script.insert(1 + r.randrange(len(script) - 1), ('m', 0, r.choice(['coordinate assignment', 'user variable overwrite',
+                                                                             'connectivity assignment'])))
+    run_history(ctx, hid, script=script, kind=kind, label='[derive child, query child / parent]')
+
+
 def replay(ctx, obj):
-    return {'fails': False, 'note': 're-run ./check C19 with VERIF_SEED=%s: histories are rebuilt from the seed' % obj.get('seed')}
+    return {'fails': False, 'note': 're-run ./check C19 with VERIF_SEED=%s: histories are rebuilt from the seed; the failing history and '
+            'the concrete meshes (node ids, coordinates, connectivity, user variables of every object) are in obj["input"]' % obj.get('seed')}
